@@ -297,7 +297,9 @@ func propC02(c *Ctx) {
 					cnt++
 					o.Sites++
 					k := p.Events[i].Call.Args[2]
-					if fl != "ProvenWithdrawals" || strip(k).Key() != "collections.Join(bridgeId, hash[:])" {
+					ks := strip(k)
+					keyOK := ks.Op == "call" && ks.Name == "collections.Join" && len(ks.Args) == 2 && strip(ks.Args[0]).Key() == "bridgeId" && strip(ks.Args[1]).Key() == "hash"
+					if fl != "ProvenWithdrawals" || !keyOK {
 						o.Fail(c.evPos(&p.Events[i]), nm+" accesses "+fl+"."+m+" with key "+strip(k).Key()+" (want ProvenWithdrawals, Join(bridgeId, hash[:]))", nil)
 					}
 				}
